@@ -1,3 +1,5 @@
+//go:build verif
+
 package main
 
 // stream "cdrsize" (C03): charging sessions whose requests carry many usage containers, driven through
